@@ -90,6 +90,10 @@ def main():
     sys.path.insert(0, os.path.dirname(os.path.dirname(os.path.abspath(__file__))))
     from sim import loader
     try:
+        if instrument:
+            # cooperative lock wrappers must exist before the code under test (and its libraries) create their locks
+            from sim import threads as _threads
+            _threads.install_coop_locks()
         loader.install(instrument)
         loader.import_all()
         for m in ("pipeline", "workload", "threads", "crash", "simenv",
